@@ -221,6 +221,8 @@ fn c10_pass(sink: &mut Sink, rng: &mut Rng, thorough: bool) {
         let rs = to_u64_ranges(&s.0 .0);
         let bits: String = gs.iter().map(|p| if mem(&rs, *p) { '1' } else { '0' }).collect();
         sink.emit(&format!("st_tfold {} {} {}", fmt_ranges(&tm), ta, sp), &bits, !a.is_empty());
+        // the RANGES themselves against the code-level model (filter + reduce with union)
+        sink.emit(&format!("st_tfold_r {} {}", fmt_ranges(&tm), ta), &fmt_ranges(&rs), !a.is_empty());
       }
     }
     let smask = rng.below(1 << NS);
@@ -232,6 +234,7 @@ fn c10_pass(sink: &mut Sink, rng: &mut Rng, thorough: bool) {
         let rs = to_u64_ranges(&t.0 .0);
         let bits: String = gt.iter().map(|p| if mem(&rs, *p) { '1' } else { '0' }).collect();
         sink.emit(&format!("st_sfold {} {} {}", fmt_ranges(&sm), ta, tp), &bits, !a.is_empty());
+        sink.emit(&format!("st_sfold_r {} {}", fmt_ranges(&sm), ta), &fmt_ranges(&rs), !a.is_empty());
       }
     }
     // lookups, in particular on boundaries shared by two consecutive time ranges
